@@ -265,7 +265,16 @@ def w_neg_pow():
     return None if q == p else "extend({'y': '(-x) ** 2', 'z': '(-3) ** 2'}) does not rebuild to an equal pipeline: " + q.to_python(pretty=False).strip()[-200:]
 
 
-WITNESSES = {"printer-neg-under-power": w_neg_pow}
+def w_cascading_merge():
+    from data_algebra.view_representations import TableDescription
+
+    t = TableDescription(table_name="d", column_names=["a", "u"])
+    p = t.extend({"a": "2 - a"}).extend({"v": "a + u", "w": "u + 1"}).extend({"v": "u.sin()"})
+    q = rebuild(p.to_python())
+    return None if q == p else "extend(a).extend(v := f(a), w).extend(v := g(u)) does not rebuild to an equal pipeline (the builder leaves a merge undone that the rebuild performs)"
+
+
+WITNESSES = {"printer-neg-under-power": w_neg_pow, "extend-merge-not-cascading": w_cascading_merge}
 
 
 def inconclusive(counters, sigs, tier):
